@@ -20,8 +20,13 @@ def step(W, sem, K=3, L=9, timeout=600):
                        "shape": "inductive step from arbitrary Rep-state"},
                units=UNITS, stubs=STUBS, kf=["C07-stale-magic"])
 
+def opn(page, smax):
+    return Obl("open-page%d" % page, "c07_open.c", defs=["PAGE=%d" % page, "SMAX=%d" % smax], unwind=4, timeout=600, mem_gb=12,
+               bounds={"requested_size": "1..%d (symbolic)" % smax, "page_size": page, "shape": "qb_rb_open_2 size arithmetic + first alloc; MODEL page sizes (real 4096/16384/65536 with sizes up to 2^17 ran out of memory/time: the rounding arithmetic is the same expression with another constant)"},
+               units=UNITS, stubs=["mmap/file stubs", "sysconf(_SC_PAGESIZE) = %d" % page])
+
 def obligations(tier):
-    obs = []
+    obs = [opn(16, 200)] if tier == "quick" else [opn(16, 200), opn(64, 600), opn(256, 1200)]
     Ws = [6, 7, 8] if tier == "quick" else [6, 7, 8, 9, 10, 11, 12]
     for W in Ws:
         obs.append(step(W, 0))
